@@ -117,10 +117,18 @@ def fault_points(scn):
     return points
 
 
+STATE_EXIT = {'hook': 'state-exit', 'occ': 1, 'pos': 'post'}
+
+
 def enumerate_cases(tier, scope):
     for name, scn in SCENARIOS.items():
         for point in fault_points(scn):
             yield {'scenario': scn, 'fault': point, 'tag': name}
+    # an application-defined state (installed through get_state_classes()) whose exit() fails every time it is called
+    for which in ('running', 'waiting'):
+        for prog in (MAIN, ASYNC):
+            for sched in ([], [['tick', 1], ['pause', 'pm'], ['tick', 2], ['play']], [['tick', 1], ['kill', 'k']]):
+                yield {'scenario': {'program': dict(prog, failing_state_exit=which), 'schedule': sched}, 'fault': dict(STATE_EXIT), 'tag': 'state-exit:' + which}
 
 
 @st.composite
@@ -143,8 +151,11 @@ def strategy(tier):
 
 def execute(case):
     scn = case['scenario']
-    counts, notes, ref = _dry(scn)
     fault = case.get('fault')
+    if fault is not None and fault.get('hook') == 'state-exit':
+        counts, notes, ref = {}, {}, None  # the failure is part of the class: there is no fault-free run of it
+    else:
+        counts, notes, ref = _dry(scn)
     if fault is None:
         points = []
         for hook in sorted(counts):
@@ -170,6 +181,8 @@ def execute(case):
             # (every other listener fault is one whose text cannot be rendered)
             w.listener_fault = {'on': fault['listener'], 'occ': fault['occ'], 'unprintable': fault['occ'] % 2 == 0 or fault['listener'] in ('on_process_paused', 'on_process_finished')}
             klass = 'listener'
+        elif fault['hook'] == 'state-exit':
+            klass = 'excepted'
         else:
             w.fault = {'hook': fault['hook'], 'occ': fault['occ'], 'pos': fault['pos']}
             if (fault['hook'], fault['occ']) in CONSTRUCT:
